@@ -2,13 +2,13 @@ from common import *
 
 META = dict(
     explanation="handleHttpRequest is executed on requests assembled from tokens with symbolic parts (method, header order, key value and case, "
-                "content length, body, early close), delivered through a connection stub in nondeterministic increments and read by the real bufio.Scanner "
+                "content length, body, early close), delivered through a connection stub cut at up to 2/3 offsets chosen among the places where framing matters (inside each line, between CR and LF, after a line, after the first and before the last byte) and read by the real bufio.Scanner "
                 "with the function's own split closure. Assertions: no action and no state without the exact key, GET never changes state, framing errors "
                 "are rejected without side effect, every answer starts with an HTTP status line.",
     functions=["fzf.(*httpServer).handleHttpRequest (incl. its split closure)", "bufio.(*Scanner).Scan/Text (real code)", "crypto/subtle.ConstantTimeCompare (real code)",
                "strings.SplitN/ToLower/TrimSpace/HasPrefix/Trim", "strconv.Atoi", "fzf.parseGetParams", "fzf.startHttpServer (net.Listen modelled)", "fzf.parseListenAddress", "fzf.listenAddress.IsLocal"],
     outside=["real sockets, timeouts, 'cannot wedge'", "the real listener and accept goroutine (modelled in the engine: one scripted connection, accept loop inline; the native replays use real loopback TCP)", "that a POST body executes like --bind (action parsing is regex-driven)", "requests longer than the bound"],
-    models=["net.Listen replaced by a listener handing out one scripted connection, then net.ErrClosed; `go` accept loop executed inline", "errors.Is without the reflection-based comparability test", "net.Conn stub with nondeterministic read sizes", "getRegex.FindStringSubmatch literal-keyed model", "parseSingleActionList replaced by zzM_parseSingleActionList (only 'up' is an action)",
+    models=["net.Listen replaced by a listener handing out one scripted connection, then net.ErrClosed; `go` accept loop executed inline", "errors.Is without the reflection-based comparability test", "net.Conn stub delivering the request cut at chosen offsets", "getRegex.FindStringSubmatch literal-keyed model", "parseSingleActionList replaced by zzM_parseSingleActionList (only 'up' is an action)",
             "select with a channel send = the send succeeds (buffered channel)", "fmt.Sprintf minimal model", "time.Now/After stubs"],
     assumptions=["header values and keys over small alphabets; one-digit content lengths"],
 )
@@ -18,7 +18,7 @@ def suites(tier):
     q = tier == "quick"
     jobs = []
     for key in ("", "k1"):
-        cfg = dict(headers=2 if q else 4, body=3 if q else 5, chunk=3 if q else 5)
+        cfg = dict(headers=2 if q else 3, body=3 if q else 4, cuts=(2 if key else 1) if q else 3)
         jobs.append(dict(id="http:key=%s" % (key or "none"), func="zzH_C16_http", cfg=cfg, cfgs=dict(key=key)))
     for i, key in enumerate(("", "k1", " ", "k1 ")):
         jobs.append(dict(id="start:key%d" % i, func="zzH_C16_start", cfg={}, cfgs={"env:FZF_API_KEY": key}, go_inline=True))
